@@ -16,12 +16,18 @@ from vflib.parts import CH, SMT
 
 # ------------------------------------------------------------------------------------------------ first match (stubs)
 def scen_first_match(ch, params, out):
-    from json_to_models.dynamic_typing import StringLiteral, StringSerializable, StringSerializableRegistry
+    from json_to_models.dynamic_typing import DDict, DList, DUnion, StringLiteral, StringSerializable, StringSerializableRegistry
     from json_to_models.generator import MetadataGenerator
     k = params.get("types", 4)
     orders = [p for r in range(0, k + 1) for p in itertools.permutations(range(k), r)]
     order = ch.choose("registration_order", orders, shard=True)
+    context = ch.choose("context", ["single_string", "two_strings_in_a_list", "two_strings_as_dict_values"])
     memo = {}
+
+    def bit(i, atom):
+        if (i, atom) not in memo:
+            memo[(i, atom)] = ch.flag(f"type{i}.accepts({atom})")
+        return memo[(i, atom)]
 
     def mk(i):
         class Stub(StringSerializable, str):
@@ -29,40 +35,53 @@ def scen_first_match(ch, params, out):
 
             @classmethod
             def to_internal_value(cls, value):
-                if i not in memo:
-                    memo[i] = ch.flag(f"type{i}.accepts(atom)")
-                if not memo[i]:
+                if not bit(i, value):
                     raise ValueError("rejected")
                 return value
-        Stub.__name__ = f"Stub{i}"
+        Stub.__name__ = Stub.__qualname__ = f"Stub{i}"      # distinct classes must print differently (types are de-duplicated by str())
         return Stub
     types = {i: mk(i) for i in range(k)}
     reg = StringSerializableRegistry()
     for i in order:
         reg.add(cls=types[i])
-    gen = MetadataGenerator(str_types_registry=reg)
-    atom = "atom"
+    gen = MetadataGenerator(str_types_registry=reg, dict_keys_fields=["f"])
+    atoms = ["atomA"] if context == "single_string" else ["atomA", "atomB"]
+    value = atoms[0] if context == "single_string" else (list(atoms) if context == "two_strings_in_a_list" else {"k1": atoms[0], "k2": atoms[1]})
     try:
         with ch.traced():
-            t = gen._detect_type(atom)
+            t = gen._detect_type(value, False) if context == "two_strings_as_dict_values" else gen._detect_type(value)
     except Exception as e:
-        out.fail("detect_raises", f"{type(e).__name__}: {e} order={order}", "detect_raises")
+        out.fail("detect_raises", f"{type(e).__name__}: {e} order={order} context={context}", "detect_raises")
         return
-    # oracle consults the same memoised bits, in registration order
-    expected = None
-    for i in order:
-        if i not in memo:
-            memo[i] = ch.flag(f"type{i}.accepts(atom)")
-        if memo[i]:
-            expected = types[i]
-            break
-    out.info = {"order": list(order), "accepts": dict(memo)}
-    if expected is None:
-        out.check(isinstance(t, StringLiteral) and set(t.literals) == {atom}, "unaccepted_string_not_literal",
-                  lambda: f"order={order} accepts={memo}: detected {t}", "unaccepted_string_not_literal")
-    else:
-        out.check(t is expected, "not_first_accepting_type", lambda: f"order={order} accepts={memo}: detected {t}, expected {expected.__name__}",
-                  "not_first_accepting_type")
+    # oracle: every string is classified on its own, by the first accepting type in registration order (same memoised bits)
+    expected_types, expected_lits = set(), set()
+    for a in atoms:
+        hit = None
+        for i in order:
+            if bit(i, a):
+                hit = types[i]
+                break
+        if hit is None:
+            expected_lits.add(a)
+        else:
+            expected_types.add(hit.__name__)
+    out.info = {"order": list(order), "context": context, "accepts": {f"{i}:{a}": v for (i, a), v in memo.items()}}
+    ctx = lambda: f"order={order} context={context} accepts={ {f'{i}:{a}': v for (i, a), v in memo.items()} }"
+    if context == "two_strings_in_a_list":
+        if not out.check(isinstance(t, DList), "list_lost", lambda: f"{t} ({ctx()})", "list_lost"):
+            return
+        t = t.type
+    elif context == "two_strings_as_dict_values":
+        if not out.check(isinstance(t, DDict), "dict_lost", lambda: f"{t} ({ctx()})", "dict_lost"):
+            return
+        t = t.type
+    members = list(t.types) if isinstance(t, DUnion) else [t]
+    got_types = {m.__name__ for m in members if isinstance(m, type)}
+    got_lits = set().union(*[set(m.literals) for m in members if isinstance(m, StringLiteral)]) if any(isinstance(m, StringLiteral) for m in members) else set()
+    out.check(got_types == expected_types, "not_first_accepting_type",
+              lambda: f"detected pseudo-types {sorted(got_types)}, expected (first accepting per string) {sorted(expected_types)} ({ctx()})", "not_first_accepting_type")
+    out.check(got_lits == expected_lits, "unaccepted_string_not_literal",
+              lambda: f"literals {sorted(got_lits)}, expected {sorted(expected_lits)} ({ctx()})", "unaccepted_string_not_literal")
 
 
 # ------------------------------------------------------------------------------------------------ resolve
@@ -161,10 +180,24 @@ def kernel_replaces(tier, seed, params):
            "bounds": {"strings": "ASCII strings of any length (z3 sequence/regex theory); non-ASCII digits and whitespace outside the models"},
            "samples": [], "solver_time_s": 0.0}
     models = _regex_models()
-    # ---- validate the regex models of int()/float()/bool parsing against the real parsers on solver-generated strings
+    # ---- validate the regex models against the ENVIRONMENT (CPython's int() / float() / the two boolean words), and, separately,
+    #      check on the same solver-generated strings that the repository's parsers accept exactly what the environment function accepts
+    def env_accepts(name, text):
+        try:
+            if name == "IntString":
+                int(text)
+            elif name == "FloatString":
+                float(text)
+            else:
+                return text.lower() in ("true", "false")
+            return True
+        except ValueError:
+            return False
+    from vflib.py2smt import z3str
     rnd = random.Random(seed)
     npts, bad = 0, 0
     s = z3.String("s")
+    parser_differs = {}
     for name, L in models.items():
         T = getattr(dt, name)
         for want in (True, False):
@@ -179,15 +212,16 @@ def kernel_replaces(tier, seed, params):
                 if str(r) != "sat":
                     sol.pop()
                     continue
-                from vflib.py2smt import z3str
                 val_py = z3str(sol.model().eval(s, model_completion=True))
                 sol.pop()
                 sol.add(s != z3.StringVal(val_py))
                 npts += 1
-                if str_accepts(T, val_py) != want:
+                if env_accepts(name, val_py) != want:
                     bad += 1
-                    res["errors"].append(f"environment model of {name} wrong on {val_py!r}: model says {want}, parser says {not want}")
-    res["validation"] = {"points": npts, "disagreements": bad}
+                    res["errors"].append(f"environment model of {name} wrong on {val_py!r}: model says {want}, CPython says {not want}")
+                elif str_accepts(T, val_py) != want:
+                    parser_differs.setdefault(name, []).append(val_py)
+    res["validation"] = {"points": npts, "disagreements": bad, "repo_parser_differs_from_builtin": {k: v[:5] for k, v in parser_differs.items()}}
     if bad:
         return res
     # ---- the edges: shipped default registry and the registry after register_datetime_classes
@@ -224,6 +258,24 @@ def kernel_replaces(tier, seed, params):
                                            "what": f"{val!r} in L({a}) but not in L({b})", "fingerprint": f"replace_edge_unsound:{a}->{b}"})
         else:
             res["inconclusive"].append(f"edge {a}->{b}: {r}")
+    for name, strs in parser_differs.items():
+        # the repository's parser is not the plain builtin: the language proof above is about another function.
+        # Look for a concrete witness against an edge among the strings found; otherwise the edge proofs are inconclusive.
+        witness = None
+        for a, b in edges:
+            if name in (a, b):
+                for cand in strs + ["1_0", " 1", "1 ", "+1", "0_0", "1e1"]:
+                    if str_accepts(getattr(dt, a), cand) and not str_accepts(getattr(dt, b), cand):
+                        witness = (a, b, cand)
+                        break
+            if witness:
+                break
+        if witness:
+            res["counterexamples"].append({"replay": "vflib.props.c09:replay_inclusion", "case": {"narrow": witness[0], "wide": witness[1], "string": witness[2]},
+                                           "what": f"{witness[2]!r} accepted by {witness[0]} but not by {witness[1]}", "fingerprint": f"replace_edge_unsound:{witness[0]}->{witness[1]}"})
+            res["discharged"] = max(0, res["discharged"] - 1)
+        else:
+            res["inconclusive"].append(f"{name}: the parser differs from the builtin it used to delegate to (e.g. on {strs[:3]}); the language proof does not cover it")
     res["samples"] = [{"obligation": f"InRe(s, L({a})) and not InRe(s, L({b})) unsat", "edge": [a, b]} for a, b in edges] or \
                      [{"obligation": "no replace edges registered"}]
     if not edges:
@@ -306,6 +358,12 @@ def scen_grammar(ch, params, out):
         if ok:
             expected, parsed = T, v
             break
+    for (narrow, wide) in reg.replaces:
+        okn, _ = accepts(narrow)
+        if okn:
+            okw, _ = accepts(wide)
+            out.check(okw, "replace_edge_unsound", lambda: f"{s!r} is accepted by {narrow.__name__} but rejected by {wide.__name__}, which is registered as covering it",
+                      f"replace_edge_unsound:{narrow.__name__}->{wide.__name__}")
     if expected is None:
         ok = isinstance(t, StringLiteral) and (set(t.literals) == {s} or (len(s) >= 20 and t.overflowed))
         out.check(ok, "unaccepted_string_not_literal", lambda: f"{s!r} detected as {t}", "unaccepted_string_not_literal")
